@@ -115,6 +115,12 @@ PROGRAMS = {
         ["declare", "l", "raman_local", ["q0", "q2"]],
         ["add", "l", ["cp", 20, S("a0", lo=0, hi=5), S("d0", "fix", lo=-20, hi=20), "PH:p0"]],
         ["target", "l", ["q1"]], ["add", "l", ["cp", 12, S("a1", lo=0, hi=5), 0.0, 1.0]]]),
+    # interpolated waveforms with a non-default interpolator and interpolator options (values concrete: scipy)
+    "interp_opts": dict(device="mock", prog=[
+        ["declare", "g", "rydberg_global"],
+        ["add", "g", ["pulse", ["interp", 40, [0.0, 2.0, 1.0, 3.0], None, {"interpolator": "interp1d", "kind": "quadratic"}],
+                      ["interp", 40, [-1.0, 1.0, 0.0], [0.0, 0.3, 1.0]], 0.5]],
+        ["add", "g", ["cdet", ["interp", 24, [1.0, 0.5, 2.0], [0.0, 0.5, 1.0], {"interpolator": "interp1d", "kind": "previous"}], S("d0", "fix", lo=-20, hi=20), 0.0]]]),
 }
 
 # parametrized templates: variable declarations + program using expressions
@@ -145,11 +151,23 @@ PARAM_PROGRAMS = {
         ["add", "g", ["pulse", ["interp", 40, E("mul", ["var", "arr"], {"lit": [1.0, 0.5, 0.25]}), [0.0, 0.5, 1.0]],
                       ["interp", 40, E("sub", ["var", "s"], {"lit": [0.0, 1.0, 2.0]}), [0.0, 0.5, 1.0]], 0.0]],
         ["add", "g", ["cdet", ["interp", 40, E("mul", {"lit": [2.0, 1.0, 0.5]}, ["var", "arr"]), [0.0, 0.25, 1.0]], E("div", ["var", "s"], 2.0), 0.0]]]),
+    # mappable register: "all qubits" of a target-less phase_shift is only known at build time (built with 2 of 3 qubits)
+    "mappable_shift_all": dict(device="mock", reg="mappable3", qubits={"q0": 1, "q1": 4}, vars=[("a", "float", 1)], prog=[
+        ["declare", "g", "rydberg_global"],
+        ["add", "g", ["cp", 16, E("var", "a"), 0.0, 0.25]],
+        ["phase_shift", E("mul", ["var", "a"], 0.5), [], "ground-rydberg"],
+        ["add", "g", ["cp", 12, 1.0, 0.0, 0.0]],
+        ["phase_shift", 0.75, ["q0", "q1"], "ground-rydberg"],
+        ["add", "g", ["cp", 12, 1.0, E("neg", ["var", "a"]), 0.0]]]),
     "vars_dmm": dict(device="mock", vars=[("x", "float", 1)], prog=[
         ["declare", "g", "rydberg_global"], ["config_dmap", {"q0": 1.0, "q1": 0.5, "q2": 0.0}, "dmm_0"],
         ["add_dmm", "dmm_0", ["ramp", 16, E("neg", ["var", "x"]), E("div", ["neg", ["var", "x"]], 2.0)]],
         ["add", "g", ["cp", 20, E("var", "x"), 0.0, 0.0]]]),
 }
+
+
+# the abstract representation documents that it only exports Pchip interpolation without options (AbstractReprError)
+LEGACY_ONLY = {"interp_opts"}
 
 
 def resolve_ph(inp, x):
@@ -287,13 +305,27 @@ def h_param_roundtrip(shape):
             return obs + [(shape["codec"] + ":param_roundtrip_completes", False)]
         obs.append(("param:decoded_is_parametrized", t2.is_parametrized() and set(t2.declared_variables) == set(tmpl.declared_variables)))
         vals = var_values(inp, P, "v")
+        if P.get("qubits"):
+            vals = dict(vals, qubits=P["qubits"])
         try:
             b1 = tmpl.build(**vals)
         except l2.REFUSALS:
             raise core.Infeasible()
-        b2 = t2.build(**vals)
+        try:
+            b2 = t2.build(**vals)
+        except Exception:  # noqa: BLE001  (the original builds with these values: the decoded one must too)
+            return obs + [(shape["codec"] + ":param_decoded_builds", False)]
         obs.append((shape["codec"] + ":param_same_build", l2.snap_equal(l2.timeline(b1), l2.timeline(b2))))
         obs.append((shape["codec"] + ":param_same_static_parts", AND(*static_equal(b1, b2))))
+        # the BUILT sequence (its stored calls hold evaluated variables) is a sequence like any other: it round-trips too
+        try:
+            if shape["codec"] == "abstract":
+                b3 = Sequence.from_abstract_repr(b1.to_abstract_repr())
+            else:
+                b3 = legacy_loads(b1._serialize())
+        except Exception:  # noqa: BLE001
+            return obs + [(shape["codec"] + ":built_roundtrip_completes", False)]
+        obs.append((shape["codec"] + ":built_identical_timeline", l2.snap_equal(l2.timeline(b1), l2.timeline(b3))))
         return obs
 
     return h
@@ -302,7 +334,8 @@ def h_param_roundtrip(shape):
 def kernels(tier):
     ks = []
     for name in PROGRAMS:
-        ks.append(("roundtrip", dict(program=name, codec="abstract")))
+        if name not in LEGACY_ONLY:
+            ks.append(("roundtrip", dict(program=name, codec="abstract")))
         ks.append(("roundtrip", dict(program=name, codec="legacy")))
     for name in PARAM_PROGRAMS:
         ks.append(("param", dict(program=name, codec="abstract")))
@@ -312,7 +345,7 @@ def kernels(tier):
         # (pending fall times, an open EOM block, a mask configured but not yet applied, no measurement) round-trip too
         for name, P in PROGRAMS.items():
             for n in range(2, len(P["prog"])):
-                for codec in ("abstract", "legacy"):
+                for codec in (("legacy",) if name in LEGACY_ONLY else ("abstract", "legacy")):
                     ks.append(("roundtrip", dict(program=name, codec=codec, upto=n)))
     return ks
 
